@@ -199,6 +199,19 @@ CHECKS = [
   'note': 'Hashes are concrete in C11 so that the real double_sha256 can be folded independently (C12 covers the '
           'functions with symbolic leaves).  Stubs as C07.',
   'design_ref': 'DESIGN.md section 4, C11'},
+ {'id': 'C06',
+  'technique': 'symx gate scheduler with worker jobs in real threads parked at storage operations; shutdown placement and '
+               'postponements solver-enumerated',
+  'text': 'The real fetch_and_process_blocks (run_with_lock, asyncio.shield, flush_if_safe) runs in the full system under '
+          'the gate scheduler through initial sync, a new block, a natural reorg and a forced reorg; shutdown (set the '
+          'event, cancel every task) is a deviation the solver places at every scheduler step; the block processor\'s '
+          'worker jobs run in real threads that park at every durable storage operation, each continuation being a gate, '
+          'so a cancelled job can still be running while the shutdown path flushes; a second deviation may postpone any '
+          'gate.  After the task returned and the remaining threads finished, the database is reopened: stored height == '
+          'height of the last completed block, index == reference at that height.',
+  'note': 'Preemption granularity is one durable storage operation.  Counterexample schedules are replayed natively with '
+          'real threads on real LevelDB.  Stubs as C07 (sessions and mempool not started).',
+  'design_ref': 'DESIGN.md section 4, C06'},
 ]
 _TODO = 'check not built yet in this revision (DESIGN.md section 4, C06: needs cancellation at every gate plus the thread-overlap mode); no claim is made'
-NOT_APPLICABLE = [{'property_id': f'C{n:02d}', 'reason': _TODO} for n in range(1, 20) if n not in (1, 2, 3, 4, 5, 7, 8, 9, 10, 11, 12, 13, 14, 15, 16, 17, 18, 19)]
+NOT_APPLICABLE = [{'property_id': f'C{n:02d}', 'reason': _TODO} for n in range(1, 20) if n not in range(1, 21)]
